@@ -1,4 +1,6 @@
-package main
+// Package hist is the scripted + reactive (pigeon-like) block history shared by
+// the C08 twin executor and the C09 hostile-value explorer.
+package hist
 
 import (
 	"encoding/json"
@@ -26,20 +28,25 @@ import (
 )
 
 const (
-	ref   = "eth-main"
-	erc20 = "0x1111111111111111111111111111111111111111"
-	nBlk  = 362
+	Ref   = "eth-main"
+	Erc20 = "0x1111111111111111111111111111111111111111"
+	NBlk  = 362
 )
 
-type script struct {
-	w     *world.World
-	denom string
-	seqs  map[string]uint64 // per-actor sequence offset within a block
+// Tx is an unsigned scripted transaction.
+type Tx struct {
+	Signer *world.Actor
+	Msgs   []sdk.Msg
 }
 
-func newScript(w *world.World) *script { return &script{w: w} }
+type Script struct {
+	W     *world.World
+	denom string
+}
 
-func (s *script) blocks() int { return nBlk }
+func NewScript(w *world.World) *Script { return &Script{W: w} }
+
+func (s *Script) Blocks() int { return NBlk }
 
 func must(err error) {
 	if err != nil {
@@ -50,46 +57,50 @@ func must(err error) {
 // setup writes the scenario directly into the root store after block 1 (it is
 // committed with block 2): active chain with compass, chain accounts, fees,
 // first snapshot, one bridged token with tax.
-func (s *script) setup() {
-	w := s.w
+func (s *Script) Setup() {
+	w := s.W
 	ctx := w.Root
-	must(w.StdChain(ctx, ref))
+	must(w.StdChain(ctx, Ref))
 	// differentiate fees a little so that scores are not all tied, but keep two tied
-	must(w.SetFee(ctx, w.Vals[3], ref, "1.5"))
-	d, err := w.BridgeToken(ctx, w.User("adm"), "t1", ref, erc20, 100000, w.User("U1"), w.User("U2"))
+	must(w.SetFee(ctx, w.Vals[3], Ref, "1.5"))
+	d, err := w.BridgeToken(ctx, w.User("adm"), "t1", Ref, Erc20, 100000, w.User("U1"), w.User("U2"))
 	must(err)
 	s.denom = d
 	must(w.App.SkywayKeeper.SetBridgeTax(ctx, &skywaytypes.BridgeTax{Token: d, Rate: "1/3", ExemptAddresses: []sdk.AccAddress{w.User("U2").Addr}}))
 }
 
-func (s *script) denomName() string {
-	return "factory/" + s.w.User("adm").Addr.String() + "/t1"
+func (s *Script) denomName() string {
+	return "factory/" + s.W.User("adm").Addr.String() + "/t1"
 }
 
-// tx builds a signed tx for signer; several txs of one signer in a block get
-// consecutive sequence numbers.
-func (s *script) tx(rctx sdk.Context, signer *world.Actor, msgs ...sdk.Msg) sdk.Tx {
-	w := s.w
-	acc := w.App.AccountKeeper.GetAccount(rctx, signer.Addr)
-	var num, seq uint64
-	if acc != nil {
-		num, seq = acc.GetAccountNumber(), acc.GetSequence()
+// Sign signs the scripted transactions of one block; several txs of one signer
+// get consecutive sequence numbers.
+func (s *Script) Sign(rctx sdk.Context, txs []Tx) []sdk.Tx {
+	w := s.W
+	seqs := map[string]uint64{}
+	var out []sdk.Tx
+	for _, t := range txs {
+		acc := w.App.AccountKeeper.GetAccount(rctx, t.Signer.Addr)
+		var num, seq uint64
+		if acc != nil {
+			num, seq = acc.GetAccountNumber(), acc.GetSequence()
+		}
+		seq += seqs[t.Signer.Name]
+		seqs[t.Signer.Name]++
+		tx, err := w.BuildTxWith(t.Signer, num, seq, t.Msgs...)
+		must(err)
+		out = append(out, tx)
 	}
-	seq += s.seqs[signer.Name]
-	s.seqs[signer.Name]++
-	tx, err := w.BuildTxWith(signer, num, seq, msgs...)
-	must(err)
-	return tx
+	return out
 }
 
 // txsFor is the scripted + reactive (pigeon-like) behaviour for block index i.
-func (s *script) txsFor(i int, rctx sdk.Context) []sdk.Tx {
-	w := s.w
-	s.seqs = map[string]uint64{}
+func (s *Script) TxsFor(i int, rctx sdk.Context) []Tx {
+	w := s.W
 	s.denom = s.denomName()
-	var txs []sdk.Tx
+	var txs []Tx
 	u1, u2 := w.User("U1"), w.User("U2")
-	add := func(signer *world.Actor, msgs ...sdk.Msg) { txs = append(txs, s.tx(rctx, signer, msgs...)) }
+	add := func(signer *world.Actor, msgs ...sdk.Msg) { txs = append(txs, Tx{Signer: signer, Msgs: msgs}) }
 
 	switch i {
 	case 0, 200:
@@ -100,7 +111,7 @@ func (s *script) txsFor(i int, rctx sdk.Context) []sdk.Tx {
 		def, _ := json.Marshal(evmtypes.JobDefinition{Address: "0x00000000000000000000000000000000000000cc", ABI: "[]"})
 		pay, _ := json.Marshal(evmtypes.JobPayload{HexPayload: "deadbeef"})
 		for _, id := range []string{"job1", "job2"} {
-			add(u1, &schedtypes.MsgCreateJob{Job: &schedtypes.Job{ID: id, Routing: schedtypes.Routing{ChainType: "evm", ChainReferenceID: ref}, Definition: def, Payload: pay, IsPayloadModifiable: id == "job2"}, Metadata: world.Meta(u1)})
+			add(u1, &schedtypes.MsgCreateJob{Job: &schedtypes.Job{ID: id, Routing: schedtypes.Routing{ChainType: "evm", ChainReferenceID: Ref}, Definition: def, Payload: pay, IsPayloadModifiable: id == "job2"}, Metadata: world.Meta(u1)})
 		}
 	case 2, 60:
 		// three executions in one block: relayer selection with score ties
@@ -108,9 +119,9 @@ func (s *script) txsFor(i int, rctx sdk.Context) []sdk.Tx {
 		add(u2, &schedtypes.MsgExecuteJob{JobID: "job2", Payload: []byte(`{"hexPayload":"c0ffee"}`), Metadata: world.Meta(u2)})
 		add(u1, &schedtypes.MsgExecuteJob{JobID: "job2", Metadata: world.Meta(u1)})
 	case 3:
-		add(u1, &skywaytypes.MsgSendToRemote{EthDest: "0x00000000000000000000000000000000000000aa", Amount: sdk.NewInt64Coin(s.denom, 100), ChainReferenceId: ref, Metadata: world.Meta(u1)})
-		add(u2, &skywaytypes.MsgSendToRemote{EthDest: "0x00000000000000000000000000000000000000ab", Amount: sdk.NewInt64Coin(s.denom, 7), ChainReferenceId: ref, Metadata: world.Meta(u2)})
-		add(u1, &skywaytypes.MsgSendToRemote{EthDest: "0x00000000000000000000000000000000000000ac", Amount: sdk.NewInt64Coin(s.denom, 9), ChainReferenceId: ref, Metadata: world.Meta(u1)})
+		add(u1, &skywaytypes.MsgSendToRemote{EthDest: "0x00000000000000000000000000000000000000aa", Amount: sdk.NewInt64Coin(s.denom, 100), ChainReferenceId: Ref, Metadata: world.Meta(u1)})
+		add(u2, &skywaytypes.MsgSendToRemote{EthDest: "0x00000000000000000000000000000000000000ab", Amount: sdk.NewInt64Coin(s.denom, 7), ChainReferenceId: Ref, Metadata: world.Meta(u2)})
+		add(u1, &skywaytypes.MsgSendToRemote{EthDest: "0x00000000000000000000000000000000000000ac", Amount: sdk.NewInt64Coin(s.denom, 9), ChainReferenceId: Ref, Metadata: world.Meta(u1)})
 	case 4:
 		add(u1, &skywaytypes.MsgCancelSendToRemote{TransactionId: 3, Metadata: world.Meta(u1)})
 		// status updates with every level, including an unknown one
@@ -128,13 +139,13 @@ func (s *script) txsFor(i int, rctx sdk.Context) []sdk.Tx {
 			if k == 3 {
 				amt = 51
 			}
-			add(v.Actor, world.DepositClaim(v, ref, 1, 10, erc20, amt, "0x00000000000000000000000000000000000000bb", u1.Addr.String()))
+			add(v.Actor, world.DepositClaim(v, Ref, 1, 10, Erc20, amt, "0x00000000000000000000000000000000000000bb", u1.Addr.String()))
 		}
 	case 6:
-		add(w.Vals[1].Actor, &treasurytypes.MsgUpsertRelayerFee{Metadata: world.Meta(w.Vals[1].Actor), FeeSetting: &treasurytypes.RelayerFeeSetting{ValAddress: w.Vals[1].ValAddr.String(), Fees: []treasurytypes.RelayerFeeSetting_FeeSetting{{Multiplicator: sdkmath.LegacyMustNewDecFromStr("1.0"), ChainReferenceId: ref}}}})
+		add(w.Vals[1].Actor, &treasurytypes.MsgUpsertRelayerFee{Metadata: world.Meta(w.Vals[1].Actor), FeeSetting: &treasurytypes.RelayerFeeSetting{ValAddress: w.Vals[1].ValAddr.String(), Fees: []treasurytypes.RelayerFeeSetting_FeeSetting{{Multiplicator: sdkmath.LegacyMustNewDecFromStr("1.0"), ChainReferenceId: Ref}}}})
 		add(u2, &tftypes.MsgCreateDenom{Subdenom: "zz", Metadata: world.Meta(u2)})
 	case 120:
-		add(u2, &skywaytypes.MsgSendToRemote{EthDest: "0x00000000000000000000000000000000000000ad", Amount: sdk.NewInt64Coin(s.denom, 11), ChainReferenceId: ref, Metadata: world.Meta(u2)})
+		add(u2, &skywaytypes.MsgSendToRemote{EthDest: "0x00000000000000000000000000000000000000ad", Amount: sdk.NewInt64Coin(s.denom, 11), ChainReferenceId: Ref, Metadata: world.Meta(u2)})
 	}
 	// reactive part: every validator answers what the chain asks of it
 	if i >= 3 && i < 340 {
@@ -143,11 +154,11 @@ func (s *script) txsFor(i int, rctx sdk.Context) []sdk.Tx {
 	return txs
 }
 
-func (s *script) react(i int, rctx sdk.Context) []sdk.Tx {
-	w := s.w
-	var txs []sdk.Tx
-	add := func(signer *world.Actor, msgs ...sdk.Msg) { txs = append(txs, s.tx(rctx, signer, msgs...)) }
-	q := world.TurnstoneQueue(ref)
+func (s *Script) react(i int, rctx sdk.Context) []Tx {
+	w := s.W
+	var txs []Tx
+	add := func(signer *world.Actor, msgs ...sdk.Msg) { txs = append(txs, Tx{Signer: signer, Msgs: msgs}) }
+	q := world.TurnstoneQueue(Ref)
 	for _, m := range w.Queue(rctx, q) {
 		signed := map[string]bool{}
 		for _, sd := range m.GetSignData() {
@@ -209,10 +220,10 @@ func (s *script) react(i int, rctx sdk.Context) []sdk.Tx {
 			}
 			// all confirmed: report execution (first batch only; the second is left to time out)
 			if b.BatchNonce <= 4 {
-				last, _ := w.App.SkywayKeeper.GetLastSkywayNonceByValidator(rctx, v.ValAddr, ref)
-				lastObs, _ := w.App.SkywayKeeper.GetLastObservedSkywayNonce(rctx, ref)
+				last, _ := w.App.SkywayKeeper.GetLastSkywayNonceByValidator(rctx, v.ValAddr, Ref)
+				lastObs, _ := w.App.SkywayKeeper.GetLastObservedSkywayNonce(rctx, Ref)
 				if last == lastObs {
-					add(v.Actor, world.BatchExecutedClaim(v, ref, last+1, 20, b.BatchNonce, tc))
+					add(v.Actor, world.BatchExecutedClaim(v, Ref, last+1, 20, b.BatchNonce, tc))
 				}
 			}
 		}
@@ -224,17 +235,17 @@ func (s *script) react(i int, rctx sdk.Context) []sdk.Tx {
 // queries runs every registered palomachain.paloma.* gRPC query through the
 // ABCI Query surface with default requests plus a small menu of arguments, and
 // CheckTx of a transaction.
-func (s *script) queries(height int64, t time.Time) {
-	w := s.w
+func (s *Script) Queries(height int64, t time.Time) {
+	w := s.W
 	paths := queryMethods()
 	menu := map[string][]string{}
 	for _, v := range w.Vals {
 		menu["valAddress"] = append(menu["valAddress"], v.ValAddr.String())
 		menu["address"] = append(menu["address"], v.Addr.String())
 	}
-	menu["queueTypeName"] = []string{world.TurnstoneQueue(ref)}
-	menu["chainReferenceId"] = []string{ref}
-	menu["chainReferenceID"] = []string{ref}
+	menu["queueTypeName"] = []string{world.TurnstoneQueue(Ref)}
+	menu["chainReferenceId"] = []string{Ref}
+	menu["chainReferenceID"] = []string{Ref}
 	for _, md := range paths {
 		reqs := []proto.Message{dynamicpb.NewMessage(md.Input())}
 		fields := md.Input().Fields()
@@ -257,7 +268,7 @@ func (s *script) queries(height int64, t time.Time) {
 					}
 					// also fill a queue name when the request has one
 					if qf := md.Input().Fields().ByName("queueTypeName"); qf != nil && qf.Kind() == protoreflect.StringKind {
-						m.Set(qf, protoreflect.ValueOfString(world.TurnstoneQueue(ref)))
+						m.Set(qf, protoreflect.ValueOfString(world.TurnstoneQueue(Ref)))
 					}
 					reqs = append(reqs, m)
 				}
